@@ -386,6 +386,28 @@ def run_unit(pid, unit, tier, keep=False, verbose=False):
             if rc != 0:
                 raise Inconclusive('goto-instrument unwind failed: ' + out[-2000:])
             cur = nxt
+        fpr = unit.get('fp_restrict')
+        if fpr:
+            # restrict local function pointer variables (traits->init/fini, handlers) to the harness stubs:
+            # CBMC's type-based function pointer removal otherwise fans out over every function of a
+            # compatible type (free, other v-table entries, ...) and recursion explodes.  Listed as assumption.
+            rc, out, _ = run(['goto-instrument', '--show-goto-functions', cur], scratch, 300)
+            syms = sorted(set(re.findall(r'DECL (\S+) : code\*', out)))
+            nxt = os.path.join(scratch, 'a2.gb')
+            cmd = ['goto-instrument']
+            used = 0
+            for sym in syms:
+                last = sym.split('::')[-1]
+                if last in fpr:
+                    cmd += ['--restrict-function-pointer-by-name', '%s/%s' % (sym, ','.join(fpr[last]))]
+                    used += 1
+            if used:
+                cmd += [cur, nxt]
+                res['cmds'].append(' '.join(cmd))
+                rc, out, _ = run(cmd, scratch, 300)
+                if rc != 0:
+                    raise Inconclusive('goto-instrument function pointer restriction failed: ' + out[-2000:])
+                cur = nxt
         loops = bool(unit.get('apply_loops', bool(unit.get('weave'))))
         if mech == 'dfcc':
             nxt = os.path.join(scratch, 'b.gb')
